@@ -323,6 +323,47 @@ def _lik(case, ctx, g):
             else:
                 ref_m = mp.log(sum(wi * mp.exp(ld(yy, f)) for wi, f in zip(w, pts)) / sp)
             ctx.close("lik_log_marginal", lmf[bi, i], torch.tensor(float(ref_m)), (1e-9, 1e-9), cls=cls + ":lm")
+    # the same quantities as FUNCTIONS: autograd derivatives with respect to the latent mean / variance and the likelihood's
+    # own parameters agree with central differences of the very forward that was just checked
+    if not case.get("outlier"):
+        for fn_name in ("expected_log_prob", "log_marginal"):
+            mm = m.clone().requires_grad_(True)
+            vv = v.clone().requires_grad_(True)
+            params = [p_ for p_ in lik.parameters()]
+            out_ = getattr(lik, fn_name)(y, MVN(mm, torch.diag_embed(vv))).sum()
+            grads = torch.autograd.grad(out_, [mm, vv] + params, allow_unused=True)
+
+            def fwd(m_, v_):
+                with torch.no_grad():
+                    return float(getattr(lik, fn_name)(y, MVN(m_, torch.diag_embed(v_))).sum())
+
+            h = 1e-6
+            # Bernoulli goes through log_normal_cdf, whose delivered derivative is phi/Phi while its forward is the 2e-3
+            # approximation of log Phi (C19 / the statement's "same relative accuracy"): compare at that accuracy there
+            gtol = (5e-3, 5e-3) if case["lik"] == "bernoulli" else (2e-5, 2e-5)
+            for which, base, gr in (("mean", m, grads[0]), ("variance", v, grads[1])):
+                fd = torch.zeros_like(base)
+                flat = base.reshape(-1)
+                for i in range(flat.numel()):
+                    e_ = torch.zeros_like(flat)
+                    e_[i] = h
+                    e_ = e_.reshape(base.shape)
+                    fd.reshape(-1)[i] = ((fwd(m + e_, v) - fwd(m - e_, v)) if which == "mean" else (fwd(m, v + e_) - fwd(m, v - e_))) / (2 * h)
+                gr = torch.zeros_like(base) if gr is None else gr
+                ctx.close("lik_gradient_matches_forward", gr, fd, gtol, cls=f"{case['lik']}:{fn_name}:d_{which}")
+            for p_, gr in zip(params, grads[2:]):
+                fd = torch.zeros_like(p_)
+                with torch.no_grad():
+                    for i in range(p_.numel()):
+                        old = float(p_.reshape(-1)[i])
+                        p_.reshape(-1)[i] = old + h
+                        up = fwd(m, v)
+                        p_.reshape(-1)[i] = old - h
+                        dn = fwd(m, v)
+                        p_.reshape(-1)[i] = old
+                        fd.reshape(-1)[i] = (up - dn) / (2 * h)
+                gr = torch.zeros_like(p_) if gr is None else gr
+                ctx.close("lik_gradient_matches_forward", gr, fd, gtol, cls=f"{case['lik']}:{fn_name}:d_param")
     # conditional distribution parameters
     f = util.randn(g, 2, *b, n)
     with torch.no_grad():
